@@ -165,6 +165,25 @@ def _not_a_declared_name(invented_name: str, context: ParsingContext) -> str:
     return invented_name
 
 
+_ANNOTATION_KEYWORDS = {"allOf", "description", "title", "nullable", "deprecated", "readOnly", "writeOnly", "example", "default"}
+
+
+def _is_annotated_reference(node: Any) -> bool:
+    """A single `$ref` wrapped in `allOf` together with annotations only (no structure of its own)."""
+    if not isinstance(node, Mapping) or not set(node) <= _ANNOTATION_KEYWORDS and not all(
+        str(key).startswith("x-") for key in set(node) - _ANNOTATION_KEYWORDS
+    ):
+        return False
+    members = node.get("allOf")
+    return (
+        isinstance(members, list)
+        and len(members) == 1
+        and isinstance(members[0], Mapping)
+        and set(members[0]) == {"$ref"}
+        and isinstance(members[0]["$ref"], str)
+    )
+
+
 def _parse_properties(
     properties_node: Mapping[str, Any],
     parent_schema_name: str | None,
@@ -189,6 +208,11 @@ def _parse_properties(
         if isinstance(prop_schema_node, Mapping) and "$ref" in prop_schema_node:
             parsed_props[prop_name] = _resolve_ref(
                 prop_schema_node["$ref"], parent_schema_name, context, max_depth_override, allow_self_reference
+            )
+        elif _is_annotated_reference(prop_schema_node):
+            # {allOf: [{$ref: X}], description: ...}: the OpenAPI 3.0 way to describe a reference - still a reference to X
+            parsed_props[prop_name] = _resolve_ref(
+                prop_schema_node["allOf"][0]["$ref"], parent_schema_name, context, max_depth_override, allow_self_reference
             )
         else:
             # Inline object promotion or direct parsing of property schema
